@@ -447,7 +447,7 @@ def _state_stmt(kind, run, i, rng):
         return ("state", run[0])
     if kind == "sdict":
         return ("sdict", run, f"_sd{i}")
-    return ("senum", run, f"_se{i}", rng.random() < 0.3)
+    return ("senum", run, f"_se{i}", rng.random() < 0.3, rng.random() < 0.5)
 
 
 def _texprs(st):
@@ -707,7 +707,7 @@ def python_source(am, prog, clsname="M"):
                     sexpr[s["k"]] = f"{st[2]}.s{s['k']}"
             elif k == "senum":
                 en = f"E{ci}{st[2]}"
-                pre.append(f"class {en}(Enum):")
+                pre.append(f"class {en}({'IntEnum' if len(st) > 4 and st[4] else 'Enum'}):")
                 for s in st[1]:
                     pre.append(f"    s{s['k']} = {s['value']!r}")
                 ini = next((f"{en}.s{s['k']}" for s in st[1] if s["initial"]), "None")
